@@ -17,6 +17,18 @@ class GenError(Exception):
     pass
 
 
+class CompilerPanic(Exception):
+    """The real compiler PANICKED (did not return a diagnostic) on a valid corpus grammar while
+    the encodings were being regenerated. Not a solver verdict, but a concrete, replayable
+    falsification of 'the compiler never panics' (C16); for every other property it is an
+    encoding failure (inconclusive)."""
+
+    def __init__(self, grammar, args):
+        super().__init__("compiler panicked on %s %s" % (grammar, " ".join(args)))
+        self.grammar = grammar
+        self.args = list(args)
+
+
 def build_native():
     """(Re)builds vdump against /repo's current working tree."""
     env = dict(kani.ENV)
@@ -246,6 +258,8 @@ E4_CORPUS = [
     dict(name="g18_two_ctx_deep", file="g18_two_ctx_deep.rustemo", args=[], nq=6, nt=7),
     dict(name="g19_deep_chain", file="g19_deep_chain.rustemo", args=[], nq=4, nt=5),
     dict(name="g19_lalr", file="g19_deep_chain.rustemo", args=["--table", "lalr"], nq=4, nt=5),
+    dict(name="g20_empty_trailing", file="g20_empty_trailing.rustemo", args=[], nq=4, nt=6),
+    dict(name="g21_split_rule", file="g21_split_rule.rustemo", args=[], nq=4, nt=6),
 ]
 
 
@@ -262,7 +276,9 @@ def generate_e4(tier):
     mods, harn, info = [], [], {}
     for c in E4_CORPUS:
         d = vdump(os.path.join(VERIF, "corpus", c["file"]), c["args"])  # os.path.join keeps an absolute c["file"]
-        if "error" in d or "panic" in d:
+        if "panic" in d:
+            raise CompilerPanic(os.path.join(VERIF, "corpus", c["file"]), c["args"])
+        if "error" in d:
             raise GenError("compiler rejected corpus grammar %s: %s" % (c["name"], d))
         for n, tag in ((c["nq"], "q"), (c["nt"], "t")):
             if tag == "t" and tier != "thorough":
